@@ -258,6 +258,12 @@ class Cache2D:
         # The test points can all lie where the pdf underflows to zero, so also
         # require symmetry at the cached gammas themselves.
         symmetric_dfe = symmetric_dfe and np.allclose(weights, weights.T, atol=0, rtol=1e-12)
+        # Zeros compare equal, so demand at least one non-zero off-diagonal
+        # value as evidence; otherwise fall back to the general calculation.
+        offdiag_t = ~np.eye(len(testx), dtype=bool)
+        offdiag_w = ~np.eye(len(weights), dtype=bool)
+        symmetric_dfe = symmetric_dfe and bool(np.any(testout[offdiag_t] != 0)
+                                               or np.any(np.atleast_2d(weights)[offdiag_w] != 0))
 
         max_gamma = -self.neg_gammas[-1]
         min_gamma = -self.neg_gammas[0]
